@@ -77,6 +77,28 @@ theorem apply_step (y : Sys) (g : Good y.s) (op : Op) (hp : op.plain = true) (ho
       · exact Step.refl g
       · rename_i hk
         exact (imul_step y g r (by simpa using hr) k hk).1
+  | removeGenes gs rr =>
+    simp only [apply]
+    split
+    · exact Step.refl g
+    · split
+      · exact Step.refl g
+      · rename_i hin
+        have hc : y.ctx = [] := by
+          cases h : y.ctx with
+          | nil => rfl
+          | cons c cs => simp [inCtx, h] at hin
+        by_cases hrr : rr = true
+        · simp only [hrr, if_true]
+          have hs := (removeRxns_step false (geneTargets y.s fun g => gs.contains g) y g).1
+          have hctx : (removeRxns false (geneTargets y.s fun g => gs.contains g) y).ctx = [] := by
+            have := hs.2; rw [hc] at this; exact this
+          refine ⟨removeGenesRaw_good hs.1 _, ?_⟩
+          rw [hc]
+          exact hctx
+        · have hrr' : rr = false := by simpa using hrr
+          simp only [hrr', Bool.false_eq_true, if_false]
+          exact ⟨removeGenesRaw_good g _, by simp [hc]⟩
   | addRxnR r lb ub ps rule =>
     simp only [apply]
     split
